@@ -72,15 +72,19 @@ class Resolver:
         if key in self._closures:
             return self._closures[key]
         restr = remove_set if any(r in remove_set for r in ("leaves", "normal", "minimal")) else "all.." + remove_set
-        todo = [n for n in self.universe if self.match(n.params["name"].replace("all.", "", 1) if False else n.params["name"], restr)]
-        # selections are made on all sets: a test selected as leaves.X is the same declaration as all.X
-        sel = {n.params["name"] for n in todo}
+        # membership of the test sets comes from the unrestricted flat parse (names carry their set variant)
+        if not hasattr(self, "_full"):
+            from avocado_i2n.cartgraph import TestGraph
+            from vt.e4.parsemc import strip_set
+
+            self._full = [n.params["name"] for n in TestGraph.parse_flat_nodes("")]
+            self._strip = strip_set
         wanted = set()
-        for n in self.universe:
-            base = n.params["name"].split(".", 1)[1] if n.params["name"].startswith("all.") else n.params["name"]
-            if any(self.match("leaves." + base, restr) or self.match("normal." + base, restr) or self.match("minimal." + base, restr) or self.match(n.params["name"], restr)
-                   for _ in (0,)) and not base.startswith(("internal.", "original.")):
-                wanted.add(n.params["name"])
+        for name in self._full:
+            if self.match(name, restr):
+                base = self._strip(name)
+                if not base.startswith(("internal.", "original.")):
+                    wanted.add("all." + base)
         frontier = [n for n in self.universe if n.params["name"] in wanted]
         seen = {n.params["name"] for n in frontier}
         while frontier:
@@ -209,6 +213,8 @@ def run(tier: str, seed: int) -> int:
     cases.append({"vms": ["vm1"], "nets": "net1", "from": "bogus", "to": "customize"})
     cases.append({"vms": ["vm1"], "nets": "net1", "from": "customize", "to": "bogus"})
     cases.append({"vms": ["vm1"], "nets": "net1", "from": "install", "to": "customize", "remove_set": "tutorial_gui"})
+    cases.append({"vms": ["vm1"], "nets": "net1", "from": "install", "to": "customize", "remove_set": "minimal"})
+    cases.append({"vms": ["vm2"], "nets": "net1 net2", "from": "install", "to": "customize", "remove_set": "minimal"})
     if not q:
         cases.append({"vms": ["vm2"], "nets": "net1 net2", "from": "customize", "to": "windows_virtuser"})
         cases.append({"vms": ["vm1", "vm2"], "nets": "net1 net2 net4", "from": "customize", "to": "customize"})
@@ -244,7 +250,7 @@ def run(tier: str, seed: int) -> int:
                     for key, get, get_state, set_state in res.decl(n, vm):
                         if set_state:
                             produced.add(set_state)
-            if (c["to"] or "customize") not in produced and (c.get("remove_set") in (None, "leaves")):
+            if (c["to"] or "customize") not in produced:
                 bogus = True
         if bogus:
             if r["exc"] is None:
@@ -286,11 +292,11 @@ def run(tier: str, seed: int) -> int:
         for k, ws in got_unsets.items():
             if k[0] not in c["vms"]:
                 rep.violation(f"[{cid}] removed state {k[1]} of unselected {k[0]}", inp, {"kind": "foreign-unset"})
-            elif c.get("remove_set") in (None, "leaves") and k not in exp_unsets:
+            elif k not in exp_unsets and True:
                 rep.violation(f"[{cid}] removed {k[1]} of {k[0]} which is not derived from the target state (derived: {sorted(s for v, s in exp_unsets if v == k[0])})", inp, {"kind": "extra-unset", "state": k[1]})
             elif k not in exp_unsets:
                 rep.violation(f"[{cid}] removed {k[1]} of {k[0]} which is not derived from the target state at all", inp, {"kind": "extra-unset", "state": k[1]})
-        if c.get("remove_set") in (None, "leaves"):
+        if True:
             for k in exp_unsets:
                 ws = got_unsets.get(k, set())
                 if set(workers) - ws:
